@@ -204,6 +204,8 @@ class Scale(EnvironmentFilter):
             #if a value is not equal with itself then it is nan.
             #Using this trick is about 2x faster than using isnan.
             values = [v for v in values if v is not None and v == v]
+            if not values or not all(isinstance(v,(int,float)) for v in values):
+                return None #only features known to be numeric are scaled
             shift = self._shift_value(values)
             scale = self._scale_value(values,shift)
 
